@@ -98,10 +98,10 @@ Proof. exact (f1_accept_complete fb HF1 s). Qed.
 
 Theorem f0_count_exact :
   fl_errors_fail fb = false ->
-  make_enumerator fb = ROk (f0_enum fb) /\
+  make_enumerator fb = ROk (f0_enum fb [] []) /\
   NoDup (map (cand_tseq fb) (keys_of fb)) /\
   (forall s, In s (map (cand_tseq fb) (keys_of fb)) <-> valid_b (code_sem fb) s = true) /\
-  Z.of_nat (length (map (cand_tseq fb) (keys_of fb))) = possible_keys fb (f0_enum fb).
+  Z.of_nat (length (map (cand_tseq fb) (keys_of fb))) = possible_keys fb (f0_enum fb [] []).
 Proof. intros He. exact (f1_count_exact fb HF1 He frag0_rejection_free). Qed.
 
 End F0T.
